@@ -56,7 +56,7 @@ CHECKS["C02"] = dict(
           "buffer, the transliterated receive loop produces exactly the outputs and state of a specification-derived per-byte reference "
           "decoder; chunking independence; buffer bound for any input; frames with invalid escape or CRC never deliver. Tied to the "
           "real AshProtocol.data_received by correspondence (exhaustive reserved-byte alphabet under all chunkings, mutated frame "
-          "streams, oversized reads, garbage with tracemalloc)."),
+          "streams, oversized reads, garbage with tracemalloc). AshProtocol.data_received itself is additionally emitted from its Python source on every run and proved equal to the model's receive loop for every state and read (c02_source_receive_loop, c02_source_loop_fuel, c02_source_refines_reference)."),
     design_ref="DESIGN.md section 6 C02",
     technique="Coq refinement proof (loop vs per-byte automaton) + model/implementation correspondence",
 )
@@ -88,7 +88,7 @@ CHECKS["C05"] = dict(
           "and the retransmit flag exactly on repeats; timeout always within [MIN, MAX]; repeats only on NAK or timeout; normal return only "
           "on a covering acknowledgement; failed link silent until RSTACK, waiting sends fail, upper layer told; one DATA frame outstanding; "
           "consecutive numbers; the same for runs in which frames race the timeout in one loop iteration. Tied to the real AshProtocol on a "
-          "virtual-time loop by correspondence over exhaustive reaction scripts, and to the source text of the receive-side methods by translation."),
+          "virtual-time loop by correspondence over exhaustive reaction scripts, and to the source text of the receive-side methods by translation. _send_data_frame, _change_ack_timeout and send_data are additionally emitted from their Python source (segments between suspension points, PrimFloat arithmetic as written) and proved to be the model's transitions for every state, attempt and outcome (c05_source_attempt*, c05_source_timeout*, c05_source_queue)."),
     design_ref="DESIGN.md section 6 C05",
     technique="Coq proof (invariants over event lists, PrimFloat model) + model/implementation correspondence in virtual time",
     note=TB + "; Print Assumptions lists only the PrimFloat/Uint63 kernel primitives; frames racing the acknowledgement timeout in one loop iteration are modelled (AshRace.v, c05_race_*); the frame handler is proved equal to the methods emitted from the source (c05_source_frame_handler)",
@@ -147,7 +147,7 @@ CHECKS["C11"] = dict(
           "other code goes to the failure path and completes no waiter; the timeout ends it; unsolicited RSTACKs change nothing; a loss or "
           "EOF releases every pending waiter and leaves nothing pending; frame numbers are zero after RSTACK. Tied to the real Gateway/EZSP by "
           "correspondence (all 256 codes in time, before/after/twice, losses at each step, batches), and to the real AshProtocol for the RST "
-          "bytes and counters from all 64 prior values."),
+          "bytes and counters from all 64 prior values. Gateway.reset, wait_for_startup_reset and AshProtocol.send_reset are additionally emitted from their Python source as segments between suspension points and proved to be the model's request / start-up / timer transitions, with the RST bytes (c11_source_reset_*, c11_source_startup_*, c11_source_timer)."),
     design_ref="DESIGN.md section 6 C11",
     technique="Coq proof over event histories with same-iteration batches + model/implementation correspondence in virtual time",
 )
@@ -158,7 +158,7 @@ CHECKS["C10"] = dict(
           "stopped, the gateway released and the transport closed, commands raise at once; stays stopped; deliberate close and the "
           "connection_lost(None) after it are silent; waiting commands end by their timeout (C06 model) and link sends by the retry budget "
           "(C05). Correspondence with the real Gateway+EZSP at gateway level; the FULL stack (real ASH, virtual time) is explored with each "
-          "failure kind injected before and after every wire event of four workloads and judged by the property predicate."),
+          "failure kind injected before and after every wire event of four workloads and judged by the property predicate. Gateway.send_data and the closed-transport path of Gateway.reset are additionally emitted from source (c10_source_send_data, c10_source_reset_closed)."),
     design_ref="DESIGN.md section 6 C10",
     technique="Coq proof (gateway/facade model) + correspondence + full-stack fault injection at every wire event",
     note=TB + "; the full-stack half is exploration (fault_enumeration level): positions sampled in the quick tier, all in thorough; threaded mode not covered",
@@ -210,7 +210,7 @@ CHECKS["C01"] = dict(
           "most once, and removing caller cancellations changes no delivery, wire frame or other completion; K = 8 is shown to break it. "
           "Refinement of an abstract sliding-window invariant (3-bit numbers) in 1 700 lines. The host half is tied to the real AshProtocol "
           "by co-simulation against a spec-derived NCP over faulty FIFO lines (random label schedules, windows 1..3, cancellations, "
-          "timeouts), replayed event by event in the host model; end-to-end delivery is also judged on every run."),
+          "timeouts), replayed event by event in the host model; end-to-end delivery is also judged on every run. The host's sender and receive loop are additionally emitted from their Python source (GenAshTxFn, GenAshLoopFn, GenAshRxFn) and proved to be the model's steps (see C02/C05)."),
     design_ref="DESIGN.md section 6 C01",
     technique="Coq refinement proof (sliding-window invariant over all label sequences) + host-half co-simulation correspondence",
     note=TB + "; FIFO lines, one epoch per run; the NCP of the theorem is a relation, the NCP of the experiment a Python simulator; Print Assumptions lists PrimFloat kernel primitives only",
@@ -238,7 +238,7 @@ CHECKS["C12"] = dict(
           "its submission (trace theorem); refusal / confirmed failure / no confirmation / still busy after the last retry raise; foreign, "
           "duplicate and unsolicited confirmations complete nothing; no bookkeeping remains; commands are only ever issued by the unique "
           "holder of the request lock (set-up + send atomic); busy statuses pinned through the C18 tables. Tied to the real "
-          "ControllerApplication.send_packet and the real per-version wrappers by correspondence (versions 4/8/13/14, thorough 4..14). _handle_frame_sent and the messageSentHandler unpacking are additionally emitted from their Python source and proved to be the model's confirmation step (c12_source_*)."),
+          "ControllerApplication.send_packet and the real per-version wrappers by correspondence (versions 4/8/13/14, thorough 4..14). _handle_frame_sent and the messageSentHandler unpacking are additionally emitted from their Python source and proved to be the model's confirmation step (c12_source_*). send_packet itself is additionally emitted from its Python source from the limiter on, and every execution of the emitted script is proved to be a path of the model with the same commands, lock scope, pending-entry scope and outcome (c12_source_send_packet, c12_source_lock_scope, c12_source_pending_scope, c12_source_busy_statuses)."),
     design_ref="DESIGN.md section 6 C12",
     technique="Coq proof (global invariant over event histories) + model/implementation correspondence in virtual time",
     note=TB + "; zigpy.util.Requests is the harness re-implementation; the extended-timeout set-up is one command in the harness",
